@@ -48,6 +48,7 @@ LEVEL_NOTE = ("Statistics are proved over exact rationals; the float effects of 
 TECHNIQUE = "machine-checked proof in Rocq (Coq) + AST re-translation (GenEq) + exact model/implementation correspondence + metamorphic row permutation"
 
 TOL = Fraction(1, 2 ** 30)
+FTOL = Fraction(1, 2 ** 40)          # ~4000 ulps: float summation of a handful of values
 
 
 def close(x, q: Fraction, scale=1) -> bool:
@@ -73,6 +74,10 @@ def gen_case(rng):
     header = ["subject_name"] + [f"{g}-{m}" for g in gs for m in ms]
     p_missing = rng.choice([0.0, 0.1, 0.3, 0.6, 0.95])
     scale = rng.choice([1, 1, 10, 1000, 1e-6])
+    # values far from zero with a small spread (distances, volumes, times): mean and deviation must not lose digits
+    offset = rng.choice([0, 0, 0, 1e3, 1e5, 1e7]) * rng.choice([1, -1])
+    if offset:
+        scale = rng.choice([1e-3, 1e-1, 1])
     rows = []
     names = []
     for i in range(ns):
@@ -91,7 +96,7 @@ def gen_case(rng):
                 elif c < 0.55:
                     v = rng.choice([0.5, 0.25, 0.1 + 0.2, 1 / 3, 2 / 3, 0.1, -0.0, 1.0, 1e-12])
                 elif c < 0.9:
-                    v = rng.uniform(-1, 1) * scale
+                    v = rng.uniform(-1, 1) * scale + offset
                 else:
                     v = rng.choice([4096.5, -2048.0, 123456.789, 2.0 ** -40, -1e-9])
                 r.append(rng.choice([repr(v), repr(v), str(int(v)) if v == int(v) and abs(v) < 1e6 and rng.random() < 0.5 else repr(v)]))
@@ -146,10 +151,14 @@ def cmp_summary(where, im, mo, exact_values=True):
         return f"{where}: values contain a non-finite entry {iv}"
     if exact_values and [Fraction(v) for v in iv] != vq:
         return f"{where}: values {iv} are not the finite recorded values {[float(v) for v in vq]}"
-    big = max([abs(v) for v in vq] + [1])
-    if not close(s["avg"], Fraction(*avg), big):
+    big = max([abs(v) for v in vq] + [Fraction(1, 2 ** 200)])
+    spread = max(vq) - min(vq)
+    # float error of a (two-pass) mean / variance of n <= ~10 summands: a few ulps of the largest summand for the mean, of
+    # (largest summand x spread) for the variance -- NOT of the squared magnitude (no cancellation of large squares is allowed)
+    if not isinstance(s["avg"], float) or math.isnan(s["avg"]) or abs(Fraction(s["avg"]) - Fraction(*avg)) > FTOL * big:
         return f"{where}: avg {s['avg']!r} != {float(Fraction(*avg))!r}"
-    if not isinstance(s["std"], float) or math.isnan(s["std"]) or abs(Fraction(s["std"]) ** 2 - Fraction(*var)) > 4 * TOL * max(1, Fraction(*var), big * big):
+    vtol = 4 * FTOL * max(Fraction(*var), big * spread) + (Fraction(1, 2 ** 45) * big) ** 2
+    if not isinstance(s["std"], float) or math.isnan(s["std"]) or abs(Fraction(s["std"]) ** 2 - Fraction(*var)) > vtol:
         return f"{where}: std {s['std']!r}, std^2 != population variance {float(Fraction(*var))!r}"
     if exact_values:
         if Fraction(s["min"]) != Fraction(*mn) or Fraction(s["max"]) != Fraction(*mx):
